@@ -76,6 +76,7 @@ def undefined_reads(fn, module_names: set, enclosing: tuple = ()) -> list:
         if isinstance(n, ast.Name) and isinstance(n.ctx, ast.Load) and n.id not in visible:
             out.append((n.id, n, 'read but defined nowhere (no assignment in the function, no module-level name, no builtin)'))
     out += _try_fallthrough(fn)
+    out += _arm_fallthrough(fn)
     for n in _scope_nodes(fn):
         if isinstance(n, (ast.FunctionDef, ast.AsyncFunctionDef)):
             out += undefined_reads(n, module_names, enclosing + (bound,))
@@ -131,4 +132,70 @@ def _try_fallthrough(fn) -> list:
                 for name in sorted(missing):
                     out.append((name, after_loads[name],
                                 f'bound in the try body at line {st.lineno} but not by the handler at line {h.lineno} that falls through to this read'))
+    return out
+
+
+def _arms(st):
+    """the arms of an if / elif / else chain that ends in an explicit else: [[stmts], ...], else None"""
+    arms = [st.body]
+    cur = st
+    while len(cur.orelse) == 1 and isinstance(cur.orelse[0], ast.If):
+        cur = cur.orelse[0]
+        arms.append(cur.body)
+    if not cur.orelse:
+        return None
+    arms.append(cur.orelse)
+    return arms
+
+
+def _arm_fallthrough(fn) -> list:
+    """(c) a local bound in some arms of an if/elif/else chain (with an explicit else) but not in another arm that falls
+    through, never bound before the chain, and read unconditionally right after it in the same block"""
+    out = []
+    own = list(_scope_nodes(fn))
+    a = fn.args
+    params = {x.arg for x in a.posonlyargs + a.args + a.kwonlyargs + [y for y in (a.vararg, a.kwarg) if y]}
+    blocks = [fn.body]
+    for n in own:
+        for fld in ('body', 'orelse', 'finalbody'):
+            v = getattr(n, fld, None)
+            if isinstance(v, list) and v and isinstance(v[0], ast.stmt) and not isinstance(n, (ast.FunctionDef, ast.ClassDef, ast.Lambda)):
+                blocks.append(v)
+        if isinstance(n, (ast.ExceptHandler, ast.match_case)):
+            blocks.append(n.body)
+    for block in blocks:
+        for i, st in enumerate(block):
+            if not isinstance(st, ast.If):
+                continue
+            arms = _arms(st)
+            if arms is None:
+                continue
+            bound = [(_stores(arm), _falls_through(arm)) for arm in arms]
+            some = set().union(*[b for b, _ in bound])
+            before = {n.id for n in own if isinstance(n, ast.Name) and isinstance(n.ctx, ast.Store) and n.lineno < st.lineno} | params
+            in_loop_later = set()      # a binding later in an enclosing loop body also reaches the read on the next iteration
+            for name in sorted(some - before):
+                lacking = [k for k, (b, ft) in enumerate(bound) if ft and name not in b]
+                if not lacking:
+                    continue
+                for later in block[i + 1:]:
+                    if name in _stores([later]) and not isinstance(later, (ast.For, ast.While, ast.If, ast.Try, ast.With)):
+                        # (re)bound by a plain statement: reads in its own value come first, later ones are fine
+                        pass
+                    # statements of the same block, read in their header (evaluated unconditionally once the block runs on)
+                    heads = [later.test] if isinstance(later, (ast.If, ast.While)) else [later.iter] if isinstance(later, ast.For) else \
+                        [later] if isinstance(later, (ast.Assign, ast.AugAssign, ast.Expr, ast.Return, ast.AnnAssign)) else []
+                    for h in heads:
+                        for x in ast.walk(h):
+                            if isinstance(x, ast.Name) and isinstance(x.ctx, ast.Load) and x.id == name and name not in in_loop_later:
+                                out.append((name, x, f'bound in some arms of the if at line {st.lineno} but not in arm {lacking[0] + 1}, which falls through to this read'))
+                                break
+                        else:
+                            continue
+                        break
+                    else:
+                        if name in _stores([later]):
+                            break
+                        continue
+                    break
     return out
